@@ -42,7 +42,8 @@ VERIF = Path(__file__).resolve().parents[2]
 CORPUS = VERIF / "corpus" / "C10"
 STATUSES = ("VALIDATED", "UNVALIDATED", "INVALID")
 PROFILES = ["STRICT", "STANDARD", "LENIENT", "ULTRA"]
-F_SALVAGE = "C10-salvage-validated"
+# no open finding.  C10-salvage-validated (octave_write lenient + parse_error_policy="salvage" answered VALIDATED for
+# content that does not tokenise) was repaired in /repo f3e003d; its witnesses stay in corpus/C10 as must-pass regressions.
 
 
 # ------------------------------------------------------------------------------------------------------------
@@ -680,16 +681,15 @@ def run_write(W, case):
             b(flags.get("grammar_hint")), b(flags.get("debug_grammar")))
         rec.obs = obs_envelope(res)
         text_ok = text is not None
-        # classifier of C10-salvage-validated: the input falsifies `w_salvaged f = false`
-        fid = F_SALVAGE if (salvaged and not parse_ok and lenient and f["policy"] == 1 and not f["changes"]) else None
+        # (C10-salvage-validated was repaired in /repo f3e003d: a salvaged call that is not UNVALIDATED is a plain failure)
         generic_property(rec, res, text_ok=text_ok, parse_ok=parse_ok, is_found=bool(sf and found(sf)),
-                         blocking_errs=f["errs"], profile_idx=None, finding_if_parse_fail=fid)
+                         blocking_errs=f["errs"], profile_idx=None)
         rec.nontrivial = text_ok
         rec.hist.append(("write:status", rec.status))
         rec.hist.append(("write:mode", mode + ("/lenient" if lenient else "") + ("/salvaged" if salvaged else "")))
         # ---- what was written as VALIDATED is VALIDATED again (normalize-mode octave_write; octave_validate)
         if (isinstance(res, dict) and res.get("validation_status") == "VALIDATED" and res.get("status") == "success"
-                and not flags.get("corrections_only") and os.path.isfile(target) and fid is None):
+                and not flags.get("corrections_only") and os.path.isfile(target)):
             try:
                 rec.calls += 1
                 a2 = {"target_path": target, "schema": schema, "corrections_only": True}
@@ -1395,10 +1395,17 @@ def run(ctx):
     c_recs = run_chunk(c_cases) if c_cases else []
     for (name, ent), r in zip([e for e in corpus if "case" in e[1]], c_recs):
         fid = ent.get("finding")
-        if fid:
+        if fid:     # witness of an OPEN finding (none at present)
             still = any(f == fid for _w, f in r.get("fails", []))
             ctx.finding_witness(fid, still)
             ctx.hist("corpus", "%s:%s" % (fid, "still-fails" if still else "no-longer-fails"))
+        else:       # must-pass regression: no property failure (reported by absorb, unattributed) and the recorded status
+            want = ent.get("expect_status")
+            ok = not r.get("fails") and "harness_error" not in r and (want is None or r.get("status") == want)
+            ctx.hist("corpus", "%s:%s" % (name, "passes" if ok else "FAILS"))
+            if want is not None and "harness_error" not in r and r.get("status") != want and not r.get("fails"):
+                ctx.property_failure({"corpus": name, "case": ent["case"], "measured_facts": r.get("line"), "observed_envelope": r.get("obs")},
+                                     "regression %s: validation_status is %r, must be %s" % (name, r.get("status"), want))
     absorb(ctx, c_recs)
     compare(ctx, c_recs, have_model)
     # ---- 2. generated cases
